@@ -650,11 +650,20 @@ where
 pub fn install_quiet_panic_hook() {
     std::panic::set_hook(Box::new(|info| {
         let msg = info.to_string();
+        if msg.contains("panic in a destructor during cleanup") || msg.contains("cannot unwind") {
+            // the process is about to abort (e.g. a second panic while the first one unwinds): leave a
+            // diagnosis behind
+            let (a, b) = (PREV_PANIC.with(|l| l.borrow().clone()), LAST_PANIC.with(|l| l.borrow().clone()));
+            eprintln!("ABORTING-PANIC: {msg}\n  previous panic: {b}\n  the one before: {a}");
+        }
+        let prev = LAST_PANIC.with(|l| l.borrow().clone());
+        PREV_PANIC.with(|l| *l.borrow_mut() = prev);
         LAST_PANIC.with(|l| *l.borrow_mut() = msg);
     }));
 }
 thread_local! {
     pub static LAST_PANIC: RefCell<String> = RefCell::new(String::new());
+    pub static PREV_PANIC: RefCell<String> = RefCell::new(String::new());
 }
 pub fn last_panic() -> String {
     LAST_PANIC.with(|l| l.borrow().clone())
